@@ -49,6 +49,11 @@ CHECKS = {
          "Every model is encoded with pbutil in binary, JSON and text form, indented and compact, decoded again and compared with proto.Equal; JSON must be well-formed; a root file that only imports the encoded file is compiled by the real parser and its applications compared (locations and import list ignored). The string sweep places every sequence of <=2 (thorough 3) tokens (quotes, backslashes, '\": ', double spaces, newlines, tabs, braces...) in name parts, long names, attribute values, array elements and multi-line annotations.",
          "library-level round trip on compiler-produced models",
          "DESIGN.md §4 C09"),
+ "C13": ("exploration",
+         "bounded-exhaustive model enumeration (every endpoint body of an alphabet x call targets over all endpoints = all call graphs) through the real generator; PlantUML sequence reader + reference call-tree walk as oracle",
+         "For every model of 3 (thorough also 4) endpoints in several application distributions, every start endpoint and every option (plain, group-by attribute, each other endpoint blackboxed) the real GenerateSequenceDiag must return a diagram whose participants are declared exactly once, whose activations balance and never go negative, in which a participant sends a call only while active and every block is closed, and whose call arrows equal the reference walk (source order, a call in progress is shown but not expanded, a blackboxed endpoint is not expanded). 7.4 million diagrams in the quick tier.",
+         "plain applications only (no ~human/~cron), simple endpoints, existing targets",
+         "DESIGN.md §4 C13"),
  "C17": ("exploration",
          "bounded-exhaustive model set (corpus, generated families, return-payload sweep, complete deep statement trees) through the real relmod.Normalize, compared row-for-row (as multisets) with an independent census of the module; repeated run compared",
          "For every model the relational schema must either be refused with an error or contain exactly the census rows: applications, mixins, endpoints, events, parameters (index, location, type, optionality), statements with their position path, types, table keys, fields (type, optionality, constraints), enums, aliases, views, annotations and tags of every element; a second run must give the same relations.",
